@@ -42,6 +42,16 @@ def run(prop: str, tier: str, seed: int) -> int:
                 rep.violation(m["clause"], {**m, "channel": "R", "depth": d})
         for rec in r.printed[:: max(1, len(r.printed) // 3)][:3]:
             rep.sample({"channel": "R", "vector": rec})
+    # ---- named tuples under every namedtuple_as_dict / engine combination (MC_NT)
+    rn = core.run_mc("MC_NT", wd, rep=rep, label="MC_NT: named-tuple fields x namedtuple_as_dict (Config / Config.dialect) x field engines; RoundTrip")
+    if rn.violated:
+        raise tlc.MachineryError(f"model theorem violated on the reference spec: {rn.violated}")
+    agg = core.replay(rn.printed)
+    rep.count(agg["n"])
+    rep.cov["traces_validated_against_impl"] += agg["n"]
+    for m in agg["mism"]:
+        if m["clause"] in wanted:
+            rep.violation(m["clause"], {**m, "channel": "R", "family": "MC_NT"})
     # ---- channel V: random deeper schemas, judged by TLC against the same operators
     g = gen.Gen(seed, max_depth=4 if tier == "quick" else 5)
     ngroups = 400 if tier == "quick" else 6000
